@@ -420,6 +420,44 @@ def worker_f(payload):
                         known(orc(name), key, wit)
                     else:
                         orc(name)["viol"].append({"law": "delete the methods whose condition fails, then the documented rule", **wit})
+            # ---- C07 over value-dependent method sets: call_next, forwarding the arguments it received, goes on with
+            # the method the documented rule selects once the methods entered so far are deleted — or reports that
+            # there is none / that they tie.  (Only in the territory where the documented rule is decisive, as for C06;
+            # distinct signatures, so that deleting an entered method cannot resurrect a replaced one.)
+            raw7 = b.get("raw") or []
+            if raw7 and not any(k in kinds_of(t) for t in alld for k in ("union", "inter")):
+                def _sig7(q):
+                    d7 = sc["defs"][q]
+                    return [(p["kind"] == "ko", p["req"], fw.glb[f"T_{d7['id']}_{p['name']}"]) for p in d7["params"]]
+
+                sl7 = [_sig7(q) for q in regs]
+                if all(sl7[x] != sl7[y] for x in range(len(sl7)) for y in range(x)) and len(set(regs)) == len(regs):
+                    entered = []
+                    for q, e7 in enumerate(raw7):
+                        d7 = fw.defs_by_id[e7[0]]
+                        entered.append(e7[0])
+                        if d7["body"][0] != "callNext":
+                            break
+                        nxt = raw7[q + 1] if q + 1 < len(raw7) else None
+                        if nxt is not None and (nxt[1] != e7[1] or nxt[2] != e7[2]):
+                            break  # other arguments were passed on: outside this oracle
+                        if nxt is None and (b["o"][0] not in ("nomethod", "ambiguous") or len(d7["body"][1]) != len(e7[1]) or e7[2]
+                                            or any(sx != ["p", ix] for ix, sx in enumerate(d7["body"][1]))):
+                            break
+                        if any(not isinstance(v, int) or v < 0 for v in e7[1]) or any(not isinstance(v, int) or v < 0 for _, v in e7[2]):
+                            break  # a default value travelled: not one of the scenario's arguments
+                        rest7 = [r7 for r7 in regs if sc["defs"][r7]["id"] not in entered]
+                        want7, _n7 = py_spec(fw, ew, sc, rest7, e7[1], [tuple(x) for x in e7[2]])
+                        if not py_spec.comparable or (steer != "literals" and py_spec.failing_candidates):
+                            break
+                        got7 = ["ran", nxt[0]] if nxt is not None else [b["o"][0]]
+                        o7 = orc("C07")
+                        o7["n"] += 1
+                        o7["nontrivial"] += 1
+                        if got7 != want7:
+                            o7["viol"].append({"law": "call_next from a method of a value-dependent method set did not go on with what the documented rule selects below the methods entered so far",
+                                               "after": list(entered), "got": got7, "want": want7, "kind": "fn-dep", "world": w.desc, "scenario": sc, "op_index": j})
+                            break
             if stop_after:
                 break
         # ---- C06 on value-dependent functions: the same definitions registered in another order answer every call alike
